@@ -34,9 +34,10 @@ THEOREMS = [
     'status_zero_iff_passed', 'status_three_iff_failed', 'status_never_two', 'incomplete_status', 'status_zero_iff_satisfied', 'status_presentation_free', 'status_is_auditEnd',
     # the verdict as shown: JSON passed / errors, text Result line, text <-> JSON <-> error list, stdout in closed form
     'json_passed_and_errors', 'json_passed_iff_no_errors', 'entries_closed', 'stdout_closed', 'resultLine_verdict', 'text_entries_info', 'text_json_errors_agree', 'errors_block_iff_failed',
-    # the error blocks: one per record, sorted as text, field + expected + actual; how a value is printed (with the proved defect of the int() rewriting)
-    'error_blocks_perm', 'error_blocks_count', 'error_blocks_sorted', 'error_text_order_free', 'errBlock_plain', 'errBlock_optional', 'normField_list', 'normField_single_text',
-    'normField_faithful_partial', 'normField_not_faithful', 'text_shows_equal_values_for_a_mismatch', 'natToStr_eq_showNat', 'normField_size',
+    # the error blocks: one per record, sorted as text, field + expected + actual; every value printed exactly as the record carries it (D39 repaired), distinct lists print distinct texts
+    'error_blocks_perm', 'error_blocks_count', 'error_blocks_sorted', 'error_text_order_free', 'errBlock_plain', 'errBlock_optional',
+    'normField_faithful', 'normField_single', 'normField_size', 'errBlock_plain_values', 'errBlock_optional_values', 'splitOn_join_comma', 'normField_injective',
+    'mismatch_shows_different_values', 'normField_nil_vs_empty_name', 'normField_comma_names', 'd39_witnesses_shown_apart',
     # the outdated notice; labels; output options
     'outdated_adds_only_the_note', 'outdated_json_only_warnings', 'outdated_changes_nothing_else', 'host_line_port_22', 'host_line_other_port', 'host_line_ipv6_other_port', 'client_lines',
     'json_host_port', 'json_entries', 'text_entries_warn', 'text_entries_fail', 'passed_quiet_above_info', 'batch_verbose_debug_free', 'colours_off_plain',
@@ -681,10 +682,11 @@ def corner_cases():
 
 
 def int_like_cases():
-    """names that int() accepts in a non-canonical spelling: the text form prints the integer, not the name"""
+    """names that int() accepts in a non-canonical spelling: the text form has to print the name, not the integer (D39)"""
     q = base_q()
     return [('int-like-compression', stub_case(policy_for(q, compressions=['007']), dict(q, comp=['7']))),
-            ('int-like-mac', stub_case(policy_for(q, macs=['1_0']), dict(q, mac=['+10'])))]
+            ('int-like-mac', stub_case(policy_for(q, macs=['1_0']), dict(q, mac=['+10']))),
+            ('int-like-banner-and-size-names', stub_case(policy_for(q, ciphers=['-0'], macs=['00'], compressions=['1e3', '0x10']), dict(q, enc=['0'], mac=['0'], comp=['1e3', '0x10', '٣'])))]
 
 
 def pick_names(r, cat, db, k):
@@ -784,12 +786,13 @@ def stage_main(ctx, cov, failures, lines, expect, tmpdir):
     from ssh_audit.ssh2_kexdb import SSH2_KexDB
     r = ctx.rng
     db = SSH2_KexDB.MASTER_DB
+    # D39 (repaired): names that int() accepts in a non-canonical spelling were printed as the integer; they have to be shown as given
+    for tag, case in int_like_cases():
+        check_main_case(case, [['-n'], [], ['-j'], ['-n', '-l', 'warn']], tmpdir, lines, expect, failures, cov, ['file-policy', 'corner:' + tag])
     for tag, case in corner_cases():
         opts_list = OPTION_SETS if (ctx.tier == 'thorough' or tag.startswith(('err-everything', 'pass-all', 'client-fail', 'err-hostkeys-optional'))) else \
             [[], ['-j']] + r.sample(OPTION_SETS[1:2] + OPTION_SETS[3:], 4)
         check_main_case(case, opts_list, tmpdir, lines, expect, failures, cov, ['file-policy', 'corner:' + tag] + (['client-audit'] if case.get('client') else []))
-    for tag, case in int_like_cases():
-        check_main_case(case, [['-n'], ['-j']], tmpdir, lines, expect, failures, cov, ['file-policy', 'corner:' + tag])
     for _ in range(ctx.scale(380, 5000)):
         case = gen_case(r, db)
         opts_list = [r.choice([[], ['-n']]), r.choice([['-j'], ['-jj']])] + r.sample(OPTION_SETS[4:], 2)
@@ -1135,11 +1138,9 @@ def stage_pieces(ctx, cov, failures, lines, expect, tmpdir):
     """(7) _normalize_error_field and _get_errors on their own"""
     from ssh_audit.policy import Policy
     r = ctx.rng
-    pool = EXOTIC + ['aes256-ctr', '3072', '0', '-1', '00', '1_2_3', '+', '-', '1 2', '\t8\n', '\x0b9', '\x1c9', '9\x1c', '\xa05', '４']
+    pool = EXOTIC + ['aes256-ctr', '3072', '0', '-1', '00', '1_2_3', '+', '-', '1 2', '\t8\n', '\x0b9', '\x1c9', '9\x1c', '\xa05', '４', '١٢']
     for _ in range(ctx.scale(300, 6000)):
         l = [r.choice(pool) for _ in range(r.choice([0, 1, 1, 1, 2, 3]))]
-        if any(c.isdigit() and not c.isascii() for x in l for c in x):
-            continue      # decimal digits outside ASCII: int() accepts them, the model does not (Model/Target.lean)
         lines.append('policyaudit.norm %s' % tstrs(l))
         expect.append(('norm', '%s' % (Policy._normalize_error_field(list(l)),), l))
     for _ in range(ctx.scale(120, 2500)):
@@ -1158,7 +1159,94 @@ def stage_pieces(ctx, cov, failures, lines, expect, tmpdir):
         expect.append(('errstr', {'errstr': s, 'json': json.dumps(errs, sort_keys=True)[1:-1]}, None))
 
 
-STAGES = [stage_main, stage_builtin, stage_direct, stage_faults, stage_make, stage_list, stage_pieces]
+def stage_fleet(ctx, cov, failures, lines, expect, tmpdir):
+    """(8) -P together with -T: fleets in which some targets' handshakes break after the banner; a block of such a target shows no verdict (no Host / Policy / Result line,
+    no "passed" key), the verdicts shown are exactly those of the healthy targets, and the run's exit status is 1 as soon as one target was incomplete"""
+    from props import multi_common as mc
+    r = ctx.rng
+    lists = dict(kex=('curve25519-sha256',), key=('ssh-ed25519',), enc=('aes256-ctr',), mac=('hmac-sha2-256-etm@openssh.com',))
+    good = fn.kexinit(list(lists['kex']), list(lists['key']), list(lists['enc']), list(lists['mac']))
+    P = policy_for({'key': list(lists['key']), 'kex': list(lists['kex']), 'enc': list(lists['enc']), 'mac': list(lists['mac']),
+                    'host_keys': {'ssh-ed25519': {'hostkey_size': 256, 'ca_key_type': '', 'ca_key_size': 0}}, 'dh': {}}, name='Fleet policy')
+    ppath = os.path.join(tmpdir, 'fleet_policy.txt')
+    with open(ppath, 'w') as f:
+        f.write(policy_text(P))
+    hk = {'ssh-ed25519': fn.ed25519_blob()}
+    arch = {
+        'pass': lambda: fn.simple_server(**lists),
+        'fail': lambda: fn.simple_server(**dict(lists, enc=('aes128-ctr', 'aes256-ctr'))),
+        'fail2': lambda: fn.simple_server(**dict(lists, mac=('hmac-sha1',), kex=('diffie-hellman-group14-sha1',))),
+        'close-after-banner': lambda: fn.Server(banner=b'SSH-2.0-OpenSSH_8.0', kexinit_payload=None, close_after_send=True),
+        'silent-after-banner': lambda: fn.Server(banner=b'SSH-2.0-OpenSSH_8.0', kexinit_payload=None),
+        'wrong-packet-type': lambda: fn.Server(banner=b'SSH-2.0-OpenSSH_8.0', raw_after_banner=fn.pkt(b'\x15' + good[1:]), hostkeys=hk),
+        'versions-differ': lambda: fn.StagedServer([fn.Server(banner=b'SSH-1.99-OpenSSH_3.9p1', raw_after_banner=b'Protocol major versions differ.\n', close_after_send=True),
+                                                    fn.Server(banner=b'SSH-1.5-OpenSSH_3.9p1', kexinit_payload=None, close_after_send=True)]),
+        'truncated-kexinit': lambda: fn.Server(banner=b'SSH-2.0-OpenSSH_8.0', raw_after_banner=fn.pkt(good)[:25], close_after_send=True),
+        'unparsable-kexinit': lambda: fn.Server(banner=b'SSH-2.0-OpenSSH_8.0', raw_after_banner=fn.pkt(good[:40]), hostkeys=hk),
+        'refused': lambda: fn.Server(refuse=True),
+    }
+    healthy = {'pass': True, 'fail': False, 'fail2': False}
+    broken = [k for k in arch if k not in healthy]
+    fleets = [['pass', b] for b in broken] + [[b, 'fail'] for b in broken] + [['fail', 'close-after-banner', 'pass', 'wrong-packet-type'], ['versions-differ', 'truncated-kexinit'],
+                                                                            ['pass', 'fail', 'fail2'], ['pass', 'pass']]
+    for _ in range(ctx.scale(10, 200)):
+        fleets.append([r.choice(list(arch)) for _ in range(r.choice([2, 3, 5]))])
+    for names in fleets:
+        for opts in ([[], ['-j']] if ctx.tier != 'thorough' else [[], ['-n'], ['-j'], ['-jj'], ['-b']]) + ([r.choice([['-n'], ['-jj'], ['-b']])] if ctx.tier != 'thorough' else []):
+            threads = r.choice([1, 2])
+            ips = [mc.ip_of(i) for i in range(len(names))]
+            tpath = os.path.join(tmpdir, 'fleet_targets.txt')
+            with open(tpath, 'w') as f:
+                f.write('\n'.join(ips) + '\n')
+            net = fn.FakeNet({ip: arch[n]() for ip, n in zip(ips, names)})
+            code, out, err, caps = run_main(['--skip-rate-test', '-P', ppath, '-T', tpath, '--threads', str(threads)] + opts, net)
+            cov.add(('fleet', tuple(names), tuple(opts), threads), True, tags=['fleet-policy-scan', 'fleet-threads-%d' % threads] + sorted(set('fleet:' + n for n in names)))
+            inp = {'kind': 'fleet', 'targets': names, 'opts': opts, 'threads': threads}
+            want = {ip: healthy[n] for ip, n in zip(ips, names) if n in healthy}
+            exp_code = 1 if len(want) < len(names) else (3 if not all(want.values()) else 0)
+            shown = {}          # host -> verdict shown
+            stray = []          # verdict material not attributable to a healthy target
+            plain = ANSI.sub('', out)
+            if is_json(opts):
+                dec, i, docs = json.JSONDecoder(), 0, []
+                while True:
+                    i = plain.find('{', i)
+                    if i < 0:
+                        break
+                    try:
+                        obj, j = dec.raw_decode(plain, i)
+                        docs.append(obj)
+                        i = j
+                    except ValueError:
+                        i += 1
+                for d in docs:
+                    if isinstance(d, dict) and 'passed' in d:
+                        if d.get('host') in want and d.get('host') not in shown:
+                            shown[d['host']] = d['passed']
+                        else:
+                            stray.append({'host': d.get('host'), 'passed': d['passed']})
+            else:
+                for block in mc.split_text_blocks(plain):
+                    ls = block.split('\n')
+                    host = [l[len('Host:   '):] for l in ls if l.startswith('Host:   ')]
+                    res = [l for l in ls if l.startswith('Result:') or l.endswith(('✔ Passed', '❌ Failed!'))]
+                    pol = [l for l in ls if l.startswith('Policy:')]
+                    if len(host) == 1 and host[0] in want and host[0] not in shown and len(res) == 1:
+                        shown[host[0]] = res[0].endswith('Passed')
+                    elif host or res or pol:
+                        stray.append({'host': host, 'result': res, 'policy': pol})
+            evaluated = sorted(c['host'] for c in caps if c['what'] == 'evaluate')
+            if stray or set(shown) - set(want) or evaluated != sorted(want):
+                failures.append({'sig': {'kind': 'incomplete_policy_audit_gives_verdict', 'mode': 'fleet'}, 'input': inp,
+                                 'observed': {'verdicts_outside_healthy_targets': stray, 'evaluated_targets': evaluated, 'exit': code, 'stdout': out[:400]},
+                                 'expected': {'verdicts only for': sorted(want), 'exit': exp_code}, 'how': HOW})
+            if shown != want:
+                failures.append({'sig': {'kind': 'fleet_policy_verdicts'}, 'input': inp, 'observed': {'shown': shown, 'stdout': out[:400]}, 'expected': want, 'how': HOW})
+            if code != exp_code:
+                failures.append({'sig': {'kind': 'fleet_policy_status'}, 'input': inp, 'observed': {'exit': code, 'shown': shown}, 'expected': exp_code, 'how': HOW})
+
+
+STAGES = [stage_main, stage_builtin, stage_direct, stage_faults, stage_make, stage_list, stage_pieces, stage_fleet]
 
 
 def compare(kind, m, want, extra):
@@ -1214,9 +1302,21 @@ def compare(kind, m, want, extra):
     return d
 
 
+# which property a failure of this file speaks about: the clauses on the error list (entries, fields, expected / actual values, "passed iff no errors", the verdict
+# against the matching rules) are C06's; exit status, the verdict shown, option independence, incomplete audits, labels, the notice, -M / -L are C02's
+FOR_C06 = {'policy_json_error_entries', 'policy_text_error_count', 'policy_text_error_entries', 'policy_text_error_value_not_as_given', 'policy_json_errors_vs_passed',
+           'policy_text_errors_block_vs_verdict', 'policy_json_document_vs_rules', 'evaluate_policy_return_vs_rules', 'harness_rule_transcriptions_disagree'}
+
+
+def route(failures):
+    for f in failures:
+        f['for'] = 'C06' if f['sig'].get('kind') in FOR_C06 else 'C02'
+    return failures
+
+
 def run(ctx):
     cov = Coverage('policy audits: one evaluation = one run of the real main() (-P file / -P built-in name / -M / -L, text and JSON, every output option, server and client audits, '
-                   'passing and failing peers with every error kind, broken handshakes) or one direct evaluate_policy / _get_errors / load_builtin_policy call; non-trivial = distinct (case, option set)')
+                   'passing and failing peers with every error kind, broken handshakes, -T fleets with broken members) or one direct evaluate_policy / _get_errors / load_builtin_policy call; non-trivial = distinct (case, option set)')
     failures, mismatches, lines, expect = [], [], [], []
     tmpdir = tempfile.mkdtemp(prefix='verif_c02pa_')
     try:
@@ -1232,10 +1332,10 @@ def run(ctx):
         d = compare(kind, m, want, extra)
         if d:
             mismatches.append({'stream': 'policyaudit.' + kind, 'op': line[:400], 'model': d[:3], 'impl': None})
-    return {'failures': failures, 'mismatches': mismatches, 'coverage': cov, 'corr_cases': len(model),
+    return {'failures': route(failures), 'mismatches': mismatches, 'coverage': cov, 'corr_cases': len(model),
             'assumptions': ['policy audit: the policy object and the peer handed to evaluate_policy are captured from the real run and given to the model; the oracle judges the run from the policy and the peer '
                             'as the harness built them (host-key / modulus sizes of the real-probe runs: as measured by the probes, which C11 / C12 cover)',
-                            'policy audit: decimal digits outside ASCII are not generated (int() accepts them, the model of int() does not); -d (debug) output is not modelled; Windows wording by a flag'],
+                            'policy audit: -d (debug) output is not modelled; Windows wording by a flag'],
             'observations': ['-M to an existing file prints "Error: file already exists" and exits 0; -M into a missing directory ends with an uncaught FileNotFoundError (status -1)',
                              'the JSON form of a client policy audit carries "host": "" and the listening port: the client address shown as "Client IP" in the text form is absent',
                              '-L ignores -j / -l / -b (only -n and -v have reached the buffer when process_commandline prints the list) and exits 0 even when no policy is found']}
